@@ -197,6 +197,7 @@ proof fn lemma_le_push(s: Seq<BedEntry>, x: BedEntry, b: u32)
 }
 
 //@extract fn bigtools/src/bbi/bigbedwrite.rs process_val
+//@rule R16
 //@presub /let add_interval_to_summary =\s*move \|.*?\n        \};\n/ => "" min=1 count=1
 //@rule R2 min=1
 //@rule R1 min=1
@@ -325,12 +326,14 @@ pub struct ZoomSink { _p: u8 }
 // process_val_zoom: signature cut from the repository, body dropped (unit bb_zoom); no contract:
 // it may return Err and may do anything to `zoom_items` (and nothing else, by its signature).
 //@extract fn bigtools/src/bbi/bigbedwrite.rs process_val_zoom
+//@rule R16
 //@rule R1 min=1
 //@skipbody
 //@end
 
 impl BigBedFullProcess {
 //@extract method bigtools/src/bbi/bigbedwrite.rs do_process "BBIDataProcessor for BigBedFullProcess"
+//@rule R16
 //@rule R1 min=2
 //@rule R5 min=1
 //@sub /Self::Value/ => BedEntry min=2
@@ -375,6 +378,7 @@ fn zoom_counts_all(zoom_counts: &mut Vec<ZoomCounts>, item_start: u32, item_end:
 
 impl BigBedNoZoomsProcess {
 //@extract method bigtools/src/bbi/bigbedwrite.rs do_process "BBIDataProcessor for BigBedNoZoomsProcess"
+//@rule R16
 //@presub /for zoom in zoom_counts \{.*?\n        \}\n/ => zoom_counts_all(zoom_counts, item_start, item_end);\n min=1 count=1
 //@rule R1 min=1
 //@rule R5 min=1
@@ -438,6 +442,7 @@ proof fn lemma_tiles_step(ce: int, end: int, res: int)
 }
 
 //@extract method bigtools/src/bbi/bigbedwrite.rs do_process "BBIDataProcessor for BigBedNoZoomsProcess"
+//@rule R16
 //@presub /\A.*?for zoom in zoom_counts \{(.*?)\n        \}\n.*\Z/ => fn zoom_count_step(zoom: &mut ZoomCounts, item_start: u32, item_end: u32) {\1\n} min=1 count=1
 //@rule R5 min=3
 //@sig
